@@ -630,6 +630,10 @@ func (g *seqGen) history(id int, seed uint64, ops int) {
 		return
 	}
 	g.observe(0)
+	if (g.fl.oversize || g.fl.name == "C13") && r.chance(3) {
+		// the size limit of a message body at its edge (a 64 MiB write: rare)
+		g.emit(fmt.Sprintf("edge %d %d", 1+r.intn(2), r.pick([]int64{-29, -28, -27, -1, 0, 0, 1, 2})))
+	}
 	fl := g.fl
 	total := fl.wPub + fl.wDel + fl.wDelMulti + fl.wTrim + fl.wCompact + fl.wFind + fl.wGC + fl.wSync + fl.wReopen + fl.wBackup + fl.wRO
 	for step := 1; step <= ops; step++ {
